@@ -229,6 +229,27 @@ impl Ctx {
             Err(e) => Err(Verdict::Violation { sig: format!("panic/{}", label), detail: format!("client task failed: {}", e) }),
         }
     }
+    /// Like `settle`, but a task that is still pending at quiescence is aborted and reported as `None`
+    /// (used for streams, which legitimately stay open).
+    pub async fn settle_opt<T: Send + 'static>(&self, label: &str, fut: impl Future<Output = T> + Send + 'static) -> Result<Option<T>, Verdict> {
+        let was = self.freeze(true);
+        let h = self.spawn(label, fut);
+        let q = self.quiesce().await;
+        if !h.is_finished() {
+            h.abort();
+            let q2 = self.quiesce().await;
+            self.freeze(was);
+            q?;
+            q2?;
+            return Ok(None);
+        }
+        self.freeze(was);
+        q?;
+        match h.await {
+            Ok(v) => Ok(Some(v)),
+            Err(e) => Err(Verdict::Violation { sig: format!("panic/{}", label), detail: format!("client task failed: {}", e) }),
+        }
+    }
     pub async fn advance_ms(&self, ms: u64) -> Result<(), Verdict> {
         if ms > 0 {
             tokio::time::advance(Duration::from_millis(ms)).await;
